@@ -443,6 +443,40 @@ def bounded(rep, tier):
         for a in ap:
             if a.row_dict and 'a' in a.row_dict:
                 fails.setdefault(f'C14.bounded.table-filter-as-arg.{name}', (sql, f'table condition became model argument: {a.row_dict}'))
+    # whatever is pushed into the fetch of one table mentions only that table: no identifier of the fetch is qualified by another table / model alias
+    from mindsdb_sql.parser.ast import Identifier, Select
+    from vlib import corpus
+    for sc in plans.generated_scenarios(tier):
+        name = sc['source'].split(':')[2]
+        if sc['catalog'] != 'names' and not name.startswith('nonconst'):
+            continue
+        try:
+            q, pl, plan_, e, kw = plans.run_scenario(sc)
+        except Exception:
+            continue
+        if e is not None or plan_ is None:
+            continue
+        n += 1
+        aliases = set()
+        for p_, x in corpus.walk_nodes(q):
+            if isinstance(x, Identifier) and x.alias is not None and len(x.alias.parts) == 1:
+                aliases.add(str(x.alias.parts[0]).lower())
+        for f in [s_ for s_ in plans.all_fetches(plan_)] if hasattr(plans, 'all_fetches') else [s_ for s_ in plan_.steps if isinstance(s_, FetchDataframeStep)]:
+            fq = f.query
+            if not isinstance(fq, Select) or not isinstance(fq.from_table, Identifier):
+                continue
+            own = {str(fq.from_table.parts[-1]).lower()} | ({str(fq.from_table.alias.parts[0]).lower()} if fq.from_table.alias is not None else set())
+            inner = set()
+            for p_, x in (corpus.walk_nodes(fq.where) if fq.where is not None else []):
+                if isinstance(x, Select):
+                    inner.update(id(y) for p2, y in corpus.walk_nodes(x))       # a nested query has its own scope
+            for p_, x in corpus.walk_nodes(fq.where) if fq.where is not None else []:
+                if id(x) in inner:
+                    continue
+                if isinstance(x, Identifier) and len(x.parts) >= 2 and isinstance(x.parts[0], str):
+                    qual = x.parts[-2].lower() if isinstance(x.parts[-2], str) else None
+                    if qual in aliases and qual not in own:
+                        fails.setdefault(f'C14.bounded.foreign-column-in-fetch.{name}', (sc['sql'], f'[{sc["catalog"]}] fetch `{fq}` is filtered by `{x}`, a column of another table / model'))
     # a comparison in the ON clause of two data tables joined to a model: pushed into the fetch only as a top-level conjunct
     from contracts import C08
     n_on, on_fails = C08.on_path_analysis(tier, prefix='C14', tail=' JOIN mindsdb.pred AS m')
